@@ -4,6 +4,7 @@ import (
 	"go/ast"
 	"go/token"
 	"go/types"
+	"sort"
 	"strings"
 )
 
@@ -130,6 +131,7 @@ func runC16(c *Ctx) {
 	} else {
 		info := load.Info()
 		ok := false
+		recheckWhy := ""
 		var windowPos token.Pos
 		ast.Inspect(load.Body(), func(n ast.Node) bool {
 			blk, isBlk := n.(*ast.BlockStmt)
@@ -166,13 +168,59 @@ func runC16(c *Ctx) {
 					if !isIf {
 						continue
 					}
-					nilEdge := false
-					refine(ifs.Cond, true, func(atom ast.Expr, t bool) {
-						if x, nonNil, k := nilTest(info, atom); k && isReaderSel(info, x) && nonNil != t {
-							nilEdge = true
+					// the guard must hold whenever (result error is nil && r.reader is nil), whatever the
+					// value of any other quantity it mentions: (ret == nil && reader == nil) => guard
+					atomNames := map[string]bool{"ret": true, "reader": true}
+					x := newE9(p, load, func(e ast.Expr, text string) string {
+						e = unparen(e)
+						if isReaderSel(info, e) {
+							return "reader"
 						}
+						if isNil(info, e) {
+							return ""
+						}
+						switch v := e.(type) {
+						case *ast.Ident:
+							if o := objOf(info, v); o != nil {
+								if types.TypeString(o.Type(), nil) == "error" {
+									return "ret"
+								}
+								if _, isVar := o.(*types.Var); isVar {
+									atomNames["free:"+v.Name] = true
+									return "free:" + v.Name
+								}
+							}
+						case *ast.SelectorExpr:
+							atomNames["free:"+text] = true
+							return "free:" + text
+						}
+						return ""
 					})
-					if !nilEdge {
+					// discover free atoms with a dry run
+					dry := map[string]int64{"ret": 0, "reader": 0}
+					for i := 0; i < 4; i++ {
+						if _, err := x.eval(ifs.Cond, dry); err == nil {
+							break
+						}
+						for a := range atomNames {
+							if _, has := dry[a]; !has {
+								dry[a] = 0
+							}
+						}
+					}
+					var atoms []string
+					for a := range atomNames {
+						atoms = append(atoms, a)
+					}
+					sort.Strings(atoms)
+					_, cx, err := e9Table(atoms, []int64{0, 1}, func(env map[string]int64) bool { return env["ret"] == 0 && env["reader"] == 0 },
+						func(env map[string]int64) (int64, error) { v, err := x.eval(ifs.Cond, env); return b2i(v.b), err },
+						func(env map[string]int64) int64 { return 1 })
+					if err != nil || cx != "" {
+						recheckWhy = "the re-check `" + exprString(ifs.Cond) + "` does not cover every nil-result path: " + cx
+						if err != nil {
+							recheckWhy = "re-check condition not understood: " + err.Error()
+						}
 						continue
 					}
 					// the body must make the result a non-nil error
@@ -200,7 +248,7 @@ func runC16(c *Ctx) {
 			c.OK("window-recheck", rel+".(*LazyBinaryReader).load", p.Pos(load.Decl.Pos()), "no window")
 		} else {
 			c.Check(ok, "window-recheck", rel+".(*LazyBinaryReader).load", p.Pos(windowPos), "no-recheck-after-window",
-				"after re-acquiring the read lock load does not re-read r.reader and fail when it was unloaded in the window")
+				"after re-acquiring the read lock load does not re-read r.reader and fail when it was unloaded in the window. "+recheckWhy)
 		}
 	}
 
